@@ -50,5 +50,18 @@ structure R (cfg : Cfg) (view : View) (tree : PMap Noti) : Prop where
   unique : UniqueKeys view
   agree : ∀ k, Sim cfg (lookup view k) (lookup tree k)
 
+/-! ## The whole cache: one view per target, events routed by the target they name -/
+
+def evTarget : Event → String
+  | .upd n => n.target
+  | .del tg _ _ _ => tg
+
+abbrev Views := String → View
+
+def applyS (vs : Views) (e : Event) : Views :=
+  fun name => if name = evTarget e then applyEvent (vs name) e else vs name
+
+def applySs (vs : Views) (evs : List Event) : Views := evs.foldl applyS vs
+
 end Feed
 end Gnmi
